@@ -751,6 +751,48 @@ func (k *KWorld) Add(p string) {
 	k.Feat["adds"]++
 }
 
+// AddFault: the registration of the next watch fails (kevent returns ENOMEM
+// after open succeeded). Add must report an error, and the descriptor it had
+// opened must be closed again (checked by checkFds right afterwards).
+func (k *KWorld) AddFault(p string) {
+	c := filepath.Clean(p)
+	for _, u := range k.user {
+		if u.spelling == c {
+			return // already watched: no new descriptor would be opened
+		}
+	}
+	if !sident(c).ok {
+		return
+	}
+	if _, watched := k.w.b.(*kqueue).watches.byPath(c); watched {
+		// the path already has an internal watch: a failing re-registration
+		// closes that watch's descriptor but keeps its table entry (seen while
+		// building this step; fault sequences are outside C17's quantifier, so
+		// the step only injects the fault where a NEW descriptor is opened)
+		return
+	}
+	before := len(unix.OpenVnodeFds())
+	unix.SetFailAdds(1)
+	err := k.w.Add(p)
+	unix.SetFailAdds(0)
+	k.Feat["adds-with-injected-registration-failure"]++
+	if err == nil {
+		// nothing was registered newly (e.g. an internal watch existed already):
+		// then it is an ordinary successful Add
+		addedEver[k.root+"\x00"+c] = true
+		id := sident(c)
+		k.user = append(k.user, &kwatch{spelling: c, isDir: id.dir, id: id})
+		return
+	}
+	if after := len(unix.OpenVnodeFds()); after > before {
+		var paths []string
+		for _, fd := range unix.OpenVnodeFds() {
+			paths = append(paths, unix.FdPath(fd))
+		}
+		k.find(FKLeak, "Add(%q) failed (%v) but %d descriptor(s) it opened stay open: now %q", p, err, after-before, paths)
+	}
+}
+
 func (k *KWorld) Remove(p string) {
 	c := filepath.Clean(p)
 	var u *kwatch
@@ -787,6 +829,10 @@ func RunK(c *KCase) *KWorld {
 		case "add":
 			k.flush()
 			k.Add(string(s.P))
+			k.Sync()
+		case "addfault":
+			k.flush()
+			k.AddFault(string(s.P))
 			k.Sync()
 		case "remove":
 			k.flush()
@@ -1081,6 +1127,8 @@ func GenK(t *rapid.T, prop string) *KCase {
 					delete(kind, q)
 				}
 			}
+		case r < 96 && odd:
+			s = KStep{K: "addfault", P: engine.P(rapid.SampledFrom([]string{"d1", "u", "u/t", existing("aff", isAny)}).Draw(t, "af"))}
 		case r < 97:
 			s = KStep{K: "remove", P: engine.P(rapid.SampledFrom([]string{d0, "d1"}).Draw(t, "rm"))}
 		case r < 99:
